@@ -216,6 +216,15 @@ def pending_term(eng, st, b):
     return z3.Or(*[z3.And(ifld(eng, st, b, e + "Enabled"), ifld(eng, st, b, e + "Requested")) for e in en])
 
 
+# opcodes whose execution steps a 16-bit register through the increment/decrement unit: (register, total documented change)
+IDU_STEPS = {0x03: ("bc", 1), 0x13: ("de", 1), 0x23: ("hl", 1), 0x33: ("sp", 1), 0x0B: ("bc", -1), 0x1B: ("de", -1), 0x2B: ("hl", -1),
+             0x3B: ("sp", -1), 0x22: ("hl", 1), 0x2A: ("hl", 1), 0x32: ("hl", -1), 0x3A: ("hl", -1)}
+for _o in (0xC5, 0xD5, 0xE5, 0xF5, 0xCD, 0xC4, 0xCC, 0xD4, 0xDC, 0xC7, 0xCF, 0xD7, 0xDF, 0xE7, 0xEF, 0xF7, 0xFF):
+    IDU_STEPS[_o] = ("sp", -2)
+for _o in (0xC1, 0xD1, 0xE1, 0xF1, 0xC9, 0xD9, 0xC0, 0xC8, 0xD0, 0xD8):
+    IDU_STEPS[_o] = ("sp", 2)
+
+
 def pre_regs(eng, st, b):
     d = {r: fld(eng, st, b, r) for r in REGS8}
     d["sp"] = fld(eng, st, b, "sp")
@@ -371,6 +380,22 @@ def instruction_lemma(ctx, eng, ce, b, op, cb=None, haltbug=False):
                 if len(ks) != 1 or ks[0] != len(es) - 1:
                     ok_order = False
             out["oambug"].append((z3.And(guard, z3.BoolVal(not ok_order)), s))
+            # what the hook is told: the address the 16-bit increment/decrement unit sees, i.e. a value the register holds
+            # BEFORE one of its steps in this instruction (never the value after the last step), and nothing at all for
+            # opcodes that do not step a 16-bit register
+            idu = IDU_STEPS.get(op) if cb is None else None
+            tv = []
+            for e in evs_all:
+                if e[0] != "T":
+                    continue
+                if idu is None:
+                    tv.append(z3.BoolVal(True))
+                    continue
+                rn, dlt = idu
+                r0 = pre["sp"] if rn == "sp" else z3.Concat(pre[rn[0]], pre[rn[1]])
+                sgn = 1 if dlt > 0 else -1
+                tv.append(z3.And(*[e[1] != r0 + z3.BitVecVal((j * sgn) & 0xffff, 16) for j in range(abs(dlt))]))
+            out["oambug"].append((z3.And(guard, z3.Or(*tv)) if tv else z3.BoolVal(False), s))
             # frame: interrupt state, run state
             fr = []
             # interrupt registers: unchanged, except through the instruction's own documented stores to FFFF / FF0F
